@@ -9,3 +9,6 @@ import Desert.Props.C17
 #print axioms C17.failure_propagates
 #print axioms C17.top_level_no_bytes_on_failure
 #print axioms C17.int_never_panics
+#print axioms C17.encode_never_panics
+#print axioms C17.encodeTop_never_panics
+#print axioms C17.overflow_needs_full_table
